@@ -242,6 +242,8 @@ let parse_pop cfg (tok : string) : pop =
   match String.split_on_char ':' tok with
   | ["a"; sub; n; pt] -> OpArith (sub = "1", zs n, sizeof (lab cfg) (ptee_of_string pt))
   | ["i"; n; pt] -> OpIndex (zs n, sizeof (lab cfg) (ptee_of_string pt))
+  | ["pp"; pt] -> OpArith (false, z_of_int 1, sizeof (lab cfg) (ptee_of_string pt))     (* ++q *)
+  | ["mm"; pt] -> OpArith (true, z_of_int 1, sizeof (lab cfg) (ptee_of_string pt))      (* --q *)
   | ["f"; x] -> OpField (List.nth (offsets (lab cfg) ps_fields) (field_index x))
   | ["e"; i] -> OpElem (zs i, z_of_int 4, z_of_int 4)
   | ["c"] -> OpCast
